@@ -170,6 +170,67 @@ TEMPLATES = {
 }
 
 
+# ------------------------------------------------------------------------------------------------
+# generic templates: every library-module configuration of modtable.py as a one-module network whose inputs all change
+# with the design index (documented memories - Scaling - excluded)
+def _vary(base, k, j):
+    """the k-th variant of input j: the same class of value (symmetry / definiteness / sparsity pattern are preserved)"""
+    if k == 0:
+        return base
+    f = 1.0 - 0.06 * k * (1 + (j % 3))
+    if sps.issparse(base):
+        out = (base * f).asformat(base.format)
+        if base.shape[0] == base.shape[1]:
+            out = (out + 0.05 * k * abs(base.diagonal()).max() * sps.identity(base.shape[0], format=base.format)).asformat(base.format)
+        return out
+    a = np.asarray(base)
+    if a.ndim == 2 and a.shape[0] == a.shape[1] and a.shape[0] > 1:
+        return a * f + 0.05 * k * np.abs(np.diag(a)).max() * np.eye(a.shape[0])
+    if a.ndim == 0:
+        return type(base)(a * f) if isinstance(base, (float, complex)) else a * f
+    r = np.random.default_rng(7 + a.size + 31 * j)
+    return a * (f + 0.1 * k * r.random(a.shape))
+
+
+def generic_template(ename):
+    def build():
+        import modtable
+        ent = [e for e in modtable.entries(0) if e.name == ename][0]
+        import pymoto as pym
+        mod, ins, outs = ent.make()
+        net = pym.Network(mod)
+        outs = list(outs)
+        x = GenericInputs(ins)
+        return net, x, outs[:2], list(ins) + outs, max(ent.tol * 10, 1e-8)
+    return build
+
+
+class GenericInputs:
+    def __init__(self, ins):
+        self.ins = list(ins)
+        self.base = [s.state for s in self.ins]
+
+    def set(self, k):
+        for j, (s, b) in enumerate(zip(self.ins, self.base)):
+            s.state = _vary(b, k, j)
+
+
+def generic_names():
+    import modtable
+    return ["mod:" + e.name for e in modtable.entries(0) if not e.name.startswith("Scaling/")]
+
+
+def template(tname):
+    return generic_template(tname[4:])() if tname.startswith("mod:") else TEMPLATES[tname]()
+
+
+def set_input(tname, x, k):
+    if isinstance(x, GenericInputs):
+        x.set(k)
+    else:
+        x.state = designs(x.state.size, k) + (0.5 if "PNorm" in tname else 0.0)
+
+
 def dense(v):
     import pymoto as pym
     if v is None:
@@ -204,7 +265,8 @@ def apply_seeds(tname, outs, seeds):
         Q.sensitivity = tot
         return
     for j in seeds:
-        outs[j - 1].sensitivity = seed_value(outs[j - 1], j)
+        if j <= len(outs):      # one-output modules: the second seed of the history is a no-op
+            outs[j - 1].sensitivity = seed_value(outs[j - 1], j)
 
 
 def same(a, b, tol):
@@ -222,8 +284,8 @@ def same(a, b, tol):
 
 
 def fresh_eval(tname, k, seeds):
-    net, x, outs, sigs, tol = TEMPLATES[tname]()
-    x.state = designs(x.state.size, k) + (0.5 if "PNorm" in tname else 0.0)
+    net, x, outs, sigs, tol = template(tname)
+    set_input(tname, x, k)
     net.response()
     if seeds:
         apply_seeds(tname, outs, list(seeds))
@@ -233,7 +295,7 @@ def fresh_eval(tname, k, seeds):
 
 def replay(tname, steps):
     import warnings
-    net, x, outs, sigs, tol = TEMPLATES[tname]()
+    net, x, outs, sigs, tol = template(tname)
     cache = {}
     for i, stp in enumerate(steps):
         op = stp["op"]
@@ -243,7 +305,7 @@ def replay(tname, steps):
             with warnings.catch_warnings():
                 warnings.simplefilter("ignore")
                 if op == "SetInput":
-                    x.state = designs(x.state.size, stp["args"][0]) + (0.5 if "PNorm" in tname else 0.0)
+                    set_input(tname, x, stp["args"][0])
                 elif op == "Response":
                     net.response()
                 elif op == "Seed":
@@ -340,6 +402,14 @@ def run(chk, replay=None):
     for tname in TEMPLATES:
         for part in par.chunks(behs + (deep if "EigenSolve(sparse" in tname else []), 6 if "EigenSolve(sparse" not in tname else 14):
             jobs.append((tname, part))
+    # every library-module configuration as a one-module network: a sample of the histories with a clean cycle after earlier activity
+    import random
+    good = [b for b in behs + deep if interesting(b)]
+    gnames = generic_names()
+    for gi, tname in enumerate(gnames):
+        pick = random.Random(chk.seed * 1000 + gi).sample(good, min(len(good), 120 if thorough else 16))
+        for part in par.chunks(pick, 8):
+            jobs.append((tname, part))
     results = par.pmap(_replay_chunk, jobs)
     for (tname, part), out in zip(jobs, results):
         for b, (_, res) in zip(part, out):
@@ -347,8 +417,8 @@ def run(chk, replay=None):
             chk.case(case, nontrivial=interesting(b))
             if res is not None:
                 i, kind, what = res
-                chk.violation("C03/%s/%s" % (tname.split("(")[0], kind), "%s: %s" % (tname, what), dict(case, steps=b[:i + 1], failing_step=i))
-    chk.extra["templates"] = list(TEMPLATES)
+                chk.violation("C03/%s/%s" % (tname.split("(")[0] if not tname.startswith("mod:") else tname.split("/")[0], kind), "%s: %s" % (tname, what), dict(case, steps=b[:i + 1], failing_step=i))
+    chk.extra["templates"] = list(TEMPLATES) + gnames
 
 
 replay_fn = replay
